@@ -1353,32 +1353,46 @@ def stacking_oracle(root):
     and computed styles: CSS 2.1 8.3.1 as in `clause_stacking`.  Between two consecutive children that do not
     collapse through, the border boxes are (largest positive + most negative) of all the margins adjoining in
     between apart; a parent without top border/padding shares its top border edge with its first such child; an
-    auto-height parent without bottom border/padding ends at its last child's bottom border edge.  Boxes whose
-    height / min-height / max-height is a percentage are left out (what they resolve to is clause (d))."""
+    auto-height parent without bottom border/padding ends at its last child's bottom border edge.  A percentage
+    height against an auto-height containing block is an auto height (CSS 2.1 10.5)."""
     boxes = mods()[1]
 
     def geo(b):
         top = F(b.position_y) + F(b.margin_top)
         return {'top': top, 'bottom': top + F(b.border_height()), 'content_top': F(b.content_box_y())}
 
-    def facts(b):
-        """-> (through, top_own, bottom_own, sure)"""
-        h, mn, mx = b.style['height'], _px(b.style['min_height']), _px(b.style['max_height'])
-        sure = (h == 'auto' or _px(h) is not None) and (b.style['min_height'] == 'auto' or mn is not None) \
-            and mx is not None
-        hp = 'auto' if h == 'auto' else _px(h)
+    def facts(b, parent_det):
+        """-> (through, top_own, bottom_own, sure).  `parent_det`: the containing block has a definite height; a
+        percentage height / min-height / max-height against an auto one computes to auto / 0 / none (CSS 2.1 10.5,
+        10.7) — the used values `min_height`, `max_height` are read, the height is decided here."""
+        h = b.style['height']
+        sure = True
+        if h == 'auto':
+            hp = 'auto'
+        elif _px(h) is not None:
+            hp = _px(h)
+        elif not parent_det:
+            hp = 'auto'                     # an unresolvable percentage behaves as auto
+        else:
+            hp = F(b.height)                # resolved against a definite height (then clamped: only 0 / not auto matter)
+            sure = b.min_height == 0 and b.max_height == INF
         if b.style['box_sizing'] != 'content-box' and hp not in ('auto', 0, None):
             hp = F(b.height) if b.height != 'auto' else hp          # what box-sizing left of it
         open_top = b.border_top_width == 0 and b.padding_top == 0
         open_bottom = b.border_bottom_width == 0 and b.padding_bottom == 0
-        min_zero = b.style['min_height'] == 'auto' or (b.min_height == 0)
+        min_zero = b.min_height == 0
         kids = [c for c in b.children if isinstance(c, boxes.BlockBox)]
         if not kids:
             through = open_top and open_bottom and min_zero and hp in ('auto', 0)
-            return through, not through, not through, sure
-        return False, not open_top, (not open_bottom) or hp != 'auto', sure
+            return through, not through, not through, sure, hp
+        return False, not open_top, (not open_bottom) or hp != 'auto', sure, hp
 
-    def check(b, is_root):
+    def determinate(b, parent_det):
+        h = b.style['height']
+        return h != 'auto' and (_px(h) is not None or parent_det)
+
+    def check(b, is_root, parent_det):
+        det = determinate(b, parent_det)
         kids = [c for c in b.children if isinstance(c, boxes.BlockBox)]
         if len(kids) != len(b.children):
             return None
@@ -1389,7 +1403,7 @@ def stacking_oracle(root):
         open_bottom = b.border_bottom_width == 0 and b.padding_bottom == 0
         prev, between, first_seen, last_solid, all_sure = None, [], False, None, True
         for k in kids:
-            through, top_own, bottom_own, sure = facts(k)
+            through, top_own, bottom_own, sure, _ = facts(k, det)
             if not sure:
                 prev, between, first_seen, all_sure = None, [], True, False
                 continue
@@ -1410,18 +1424,18 @@ def stacking_oracle(root):
             prev = (kg, k) if bottom_own else None
             last_solid = (kg, k) if (top_own and bottom_own) else None
             between, first_seen = [], True
-        _, _, _, sure = facts(b)
+        _, _, _, sure, hp = facts(b, parent_det)
         if (last_solid is not None and not between and all_sure and sure and not is_root and open_bottom and
-                b.style['height'] == 'auto' and b.min_height == 0 and b.max_height == INF and
+                hp == 'auto' and b.min_height == 0 and b.max_height == INF and
                 kids[-1] is last_solid[1] and g['bottom'] != max(last_solid[0]['bottom'], g['content_top'])):
             return (f'<{b.element_tag}> (auto height, no bottom border/padding): its bottom border edge '
                     f'{g["bottom"]} must be that of its last child, {last_solid[0]["bottom"]}')
         for k in kids:
-            r = check(k, False)
+            r = check(k, False, det)
             if r:
                 return r
         return None
-    return check(root, True)
+    return check(root, True, True)
 
 
 def doc_oracle_v(doc):
@@ -1567,6 +1581,23 @@ SIBLING_DOCS = [
      '<div id=b style="column-width:50px;margin-top:9px">x y z</div>', [4, 12, 7, 9]),
     ('plain-block', '<p id=a style="margin-bottom:15px">a</p><div id=b style="margin-top:10px">x y z</div>',
      [15, 10]),
+    # a percentage height / max-height / min-height against an auto-height containing block computes to auto / none /
+    # 0 (CSS 2.1 10.5, 10.7): the box behaves as height:auto, the bottom margin of its last child adjoins its own
+    ('pct-height-auto-parent', '<div id=a style="height:50%"><div style="height:20px;margin-bottom:30px"></div></div>'
+     '<div id=b style="height:20px;margin-top:10px"></div>', [30, 0, 10]),
+    ('pct-height-auto-parent-negative', '<div id=a style="height:50%"><div style="height:20px;margin-bottom:-8px">'
+     '</div></div><div id=b style="height:20px;margin-top:10px"></div>', [-8, 0, 10]),
+    ('pct-height-auto-parent-nested', '<div id=a style="height:50%;margin-bottom:4px"><div style="height:25%">'
+     '<div style="height:20px;margin-bottom:30px"></div></div></div>'
+     '<div id=b style="height:20px;margin-top:10px"></div>', [30, 0, 4, 10]),
+    ('pct-max-height-auto-parent', '<div id=a style="max-height:50%"><div style="height:20px;margin-bottom:30px"></div>'
+     '</div><div id=b style="height:20px;margin-top:10px"></div>', [30, 0, 10]),
+    ('pct-min-height-auto-parent', '<div id=a style="min-height:50%"><div style="height:20px;margin-bottom:30px"></div>'
+     '</div><div id=b style="height:20px;margin-top:10px"></div>', [30, 0, 10]),
+    # control: the same percentage against a definite height is a definite height: the child's margin stays inside
+    ('pct-height-definite-parent', '<div style="height:100px"><div id=a style="height:50%">'
+     '<div style="height:20px;margin-bottom:30px"></div></div><div id=b style="height:20px;margin-top:10px"></div>'
+     '</div>', [0, 10]),
 ]
 
 
